@@ -54,7 +54,12 @@ Instances == <<
   Foreign(RespWinops(18, 24, 80)),
   Foreign(CSIb \o <<"?", "6", "2", ";", "4", "c">>),
   Foreign(OSCb \o <<"4", ";", "1", ";">> \o RgbText(<<"0">>, <<"0">>, <<"0">>) \o STb),
-  Foreign(APCb \o <<"G", "I", "=", "7", ";", "O", "K">> \o STb)>>
+  Foreign(APCb \o <<"G", "I", "=", "7", ";", "O", "K">> \o STb),
+  \* ... and the vocabulary's own REQUESTS (a tty that echoes feeds them back): no request is
+  \* mistaken for an answer
+  Foreign(Bytes(Op0("TEXT_AREA_SIZE_PX"))), Foreign(Bytes(Op0("CELL_SIZE_PX"))),
+  Foreign(Bytes(Op0("TEXT_FG_QUERY"))), Foreign(Bytes(Op0("TEXT_BG_QUERY"))),
+  Foreign(Bytes(Op0("XTVERSION"))), Foreign(Bytes(Op0("DA1"))), Foreign(Bytes(Op0("KITTY_SUPPORT_QUERY")))>>
 
 \* what may follow an answer in the terminal's reply stream: DA1's answer; the same answer again
 Contexts(str) == {CSIb \o <<"?", "6", "2", ";", "c">>, str}
